@@ -27,29 +27,22 @@ Definition listing (l : list entry) : list row :=
 Record tcase := {
   c_m0 : N;                        (* store version after NewStore (observed, an input of the model) *)
   c_ops : list op;                 (* the history, write/restart stamped with the observed store version *)
-  c_foreign : bool;                (* the location holds another store's id file, backup file and cursor *)
+  c_sid : bytes;                   (* content of the store's DATAHUB_BACKUPID (hub-generated or operator-assigned) *)
+  c_foreign : bool;                (* the location is pre-filled: an id file, somebody's backup file and cursor *)
+  c_locid0 : bytes;                (* ... content of that id file *)
   (* observed on the implementation *)
   o_cursor0 : N;                   (* lastID after NewBackupManager *)
-  o_steps : list obs_step;         (* per op: lastID, datahub-backup.lastseen, result of Run, kv file changed *)
+  o_locid0 : option bytes;         (* the location's id file before the first step *)
+  o_steps : list obs_step;         (* per op: lastID, datahub-backup.lastseen, result of Run, kv file changed,
+                                      the location's id file afterwards, any file of the location changed *)
   o_snap : option (list row);      (* source listing when the last returned backup run started *)
   o_restored : option (list row);  (* listing of the hub restored with DB.Load; None = no backup file *)
   o_rich_eq : bool;                (* all reads of the restored hub equal those of the source at that moment *)
-  o_raw_eq : bool;                 (* Badger level: every live key has the same version, meta and value in both *)
-  o_untouched : bool               (* foreign case: every file of the location is byte-identical afterwards *)
+  o_raw_eq : bool                  (* Badger level: every live key has the same version, meta and value in both *)
 }.
 
-Definition store_id : N := 1.
-(** another store's location: its id, its backup file (opaque bytes), its cursor file *)
-Definition foreign_fs : fs := [(FStorageId, DNum 4711); (FKv, DNum 77); (FSeen, DNum 9)].
-
-Definition fdata_eqb (a b : fdata) : bool :=
-  match a, b with
-  | DEntries x, DEntries y => list_eqb entry_eqb x y
-  | DNum x, DNum y => x =? y
-  | _, _ => false
-  end.
-Definition fs_eqb : fs -> fs -> bool :=
-  list_eqb (fun a b => fname_eqb (fst a) (fst b) && fdata_eqb (snd a) (snd b)).
+(** a pre-filled location: an id file, a backup file (opaque bytes), a cursor file *)
+Definition foreign_fs (b : bytes) : fs := [(FStorageId, DBytes b); (FKv, DNum 77); (FSeen, DNum 9)].
 
 (** same set of entries *)
 Definition subset_b (a b : list entry) : bool := forallb (fun e => existsb (entry_eqb e) b) a.
@@ -57,28 +50,29 @@ Definition sets_eqb (a b : list entry) : bool := subset_b a b && subset_b b a.
 
 Definition optN_eqb (a b : option N) : bool :=
   match a, b with Some x, Some y => x =? y | None, None => true | _, _ => false end.
+Definition optbytes_eqb (a b : option bytes) : bool :=
+  match a, b with Some x, Some y => bytes_eqb x y | None, None => true | _, _ => false end.
 Definition step_eqb (a b : obs_step) : bool :=
   (x_cursor a =? x_cursor b) && optN_eqb (x_disk a) (x_disk b) && (x_res a =? x_res b)
-  && Bool.eqb (x_grew a) (x_grew b).
+  && Bool.eqb (x_grew a) (x_grew b) && optbytes_eqb (x_locid a) (x_locid b)
+  && Bool.eqb (x_touched a) (x_touched b).
 Definition optrows_eqb (a b : option (list row)) : bool :=
   match a, b with Some x, Some y => rows_eqb x y | None, None => true | _, _ => false end.
 
 Definition init_of (v : variant) (c : tcase) : state :=
-  init v (c_m0 c) store_id (if c_foreign c then foreign_fs else []).
+  init v (c_m0 c) (c_sid c) (if c_foreign c then foreign_fs (c_locid0 c) else []).
 
 Record prediction := {
-  p_cursor0 : N; p_steps : list obs_step;
+  p_cursor0 : N; p_locid0 : option bytes; p_steps : list obs_step;
   p_snap : option (list entry);     (* the log the source had at the snapshot *)
-  p_file : option (list entry);     (* the stream DB.Load would read *)
-  p_untouched : bool
+  p_file : option (list entry)      (* the stream DB.Load would read *)
 }.
 
 Definition predict (v : variant) (c : tcase) : prediction :=
   let st0 := init_of v c in
   let '(xs, st) := trace v (c_ops c) st0 in
-  {| p_cursor0 := s_cursor st0; p_steps := xs; p_snap := s_snap st;
-     p_file := match fs_get (s_fs st) FKv with Some (DEntries l) => Some (badger_load l) | _ => None end;
-     p_untouched := fs_eqb (s_fs st) (s_fs st0) |}.
+  {| p_cursor0 := s_cursor st0; p_locid0 := loc_id (s_fs st0); p_steps := xs; p_snap := s_snap st;
+     p_file := match fs_get (s_fs st) FKv with Some (DEntries l) => Some (badger_load l) | _ => None end |}.
 
 (** The model does not know which lost Badger entries are visible to which read API, so about
     the all-reads comparison and the key-level comparison it only claims: same entry set => all
@@ -93,14 +87,29 @@ Definition rich_claim (p : prediction) (c : tcase) : bool :=
 Definition agree (v : variant) (c : tcase) : bool :=
   let p := predict v c in
   (p_cursor0 p =? o_cursor0 c)
+  && optbytes_eqb (p_locid0 p) (o_locid0 c)
   && list_eqb step_eqb (p_steps p) (o_steps c)
   && optrows_eqb (option_map listing (p_snap p)) (o_snap c)
-  && (if c_foreign c then Bool.eqb (p_untouched p) (o_untouched c)
+  && (if c_foreign c then true   (* a pre-filled location is not restored by the driver *)
       else optrows_eqb (option_map listing (p_file p)) (o_restored c) && rich_claim p c).
+
+(** "a location that belongs to a different store is never overwritten": a step of the HUB taken
+    while the location's id file exists and differs from the store's leaves every file of the
+    location unchanged and is not a returned backup run.  [prev] = id file before the step. *)
+Fixpoint foreign_ok (sid : bytes) (prev : option bytes) (ops : list op) (xs : list obs_step) : bool :=
+  match ops, xs with
+  | o :: ops', x :: xs' =>
+    (if is_env o then true
+     else if is_foreign sid prev then negb (x_touched x) && negb (x_res x =? R_RETURNED) else true)
+    && foreign_ok sid (x_locid x) ops' xs'
+  | [], [] => true
+  | _, _ => false
+  end.
 
 (** the executable spec S, evaluated on the implementation's observations only *)
 Definition spec_ok (c : tcase) : bool :=
-  if c_foreign c then o_untouched c
+  foreign_ok (c_sid c) (o_locid0 c) (c_ops c) (o_steps c) &&
+  if c_foreign c then true
   else match o_snap c with
        | None => true                       (* no backup run returned: nothing is promised *)
        | Some s => match o_restored c with
